@@ -395,6 +395,31 @@ Proof.
   destruct (reg_is_jwe (ta_reg a)); [exact (HE _ _ _ _ T) | exact (HS _ _ _ _ T)].
 Qed.
 
+(* ---------- the JWE transport keeps the protected header it was given ---------- *)
+Lemma api_jwe_header_kept
+  (json_dumps : option N -> claims -> res bytes)
+  (jws_encode jwe_encode : hdr -> bytes -> targs -> res bytes * hdr)
+  (jwe_decode : bytes -> targs -> res (hdr * bytes)) (a : targs) :
+  reg_is_jwe (ta_reg a) = true ->
+  (forall w p tok w', jwe_encode w p a = (Ok tok, w') ->
+     jwe_decode tok a = Ok (w', p) /\
+     exists extra, w' = w ++ extra /\ forall k, dmem w k = true -> dmem extra k = false) ->
+  forall h c e tok,
+    keys_unique (dkeys h) = true ->
+    eo_result (jwt_encode json_dumps jws_encode jwe_encode h c a e) = Ok tok ->
+    exists p extra,
+      jwe_decode tok a = Ok (spec_header h ++ extra, p) /\
+      eo_work (jwt_encode json_dumps jws_encode jwe_encode h c a e) = spec_header h ++ extra /\
+      (forall k, dmem (spec_header h) k = true -> dmem extra k = false) /\
+      dget (spec_header h ++ extra) lit_typ =
+        Some (match dget h lit_typ with Some v => v | None => lit_JWT end) /\
+      (forall k v, dget h k = Some v -> dget (spec_header h ++ extra) k = Some v).
+Proof.
+  intros J T h c e tok U H. unfold jwt_encode in *.
+  apply (encode_g_token_header (json_dumps e) (select_encode jws_encode jwe_encode a) (fun t => jwe_decode t a)); try assumption.
+  intros w p t w' E. unfold select_encode in E. rewrite J in E. exact (T w p t w' E).
+Qed.
+
 (* ---------- non-vacuity: a concrete transport + JSON codec meeting both
    contracts on which encode succeeds ---------- *)
 Definition toy_hdr : hdr := [(asc "typ", PStr (asc "JWT")); (asc "alg", PStr (asc "none"))].
@@ -471,3 +496,9 @@ Proof.
     intro H. injection H as <- _. reflexivity.
   - vm_compute. reflexivity.
 Qed.
+
+Lemma jwe_header_kept_instance :
+  spec_header [(asc "alg", PStr (asc "dir")); (asc "enc", PStr (asc "A128GCM")); (asc "zip", PStr (asc "DEF"))] =
+    [(asc "typ", PStr (asc "JWT")); (asc "alg", PStr (asc "dir")); (asc "enc", PStr (asc "A128GCM")); (asc "zip", PStr (asc "DEF"))] /\
+  reg_is_jwe (ta_reg (mkta 1 None (Some (true, 1%N)))) = true.
+Proof. vm_compute. split; reflexivity. Qed.
